@@ -131,6 +131,14 @@ def main():
                     b = gen.build(tabs, ident, rng, mode="zeros", maskmode="last")
                 if b is not None and len(b.payload) <= 1023:
                     pays.append((b.ident, b.payload))
+        # helper state across calls: for every MSM type an EMPTY message (no satellites) first, then a populated one, then empty again
+        seqs = []
+        for ident in msm:
+            e = gen.build(tabs, ident, rng, maskmode="empty")
+            f = gen.build(tabs, ident, rng, maskmode="full", mode="zeros") if False else gen.build(tabs, ident, rng, maskmode=None)
+            if e is not None and f is not None and len(f.payload) <= 1023:
+                seqs += [(ident, e.payload), (ident, f.payload), (ident, e.payload), (ident, f.payload)]
+        pays = seqs + pays
         for r in range(12 if thorough else 5):
             b = gen.build(tabs, "4076_201", rng, maxcount=rng.choice([1, 2, 3]))
             if b is not None and len(b.payload) <= 1023:
